@@ -453,6 +453,9 @@ func genB(tier string) []proto.RTItem {
 				name = "fault-" + f[0].Op
 			}
 			items = append(items, proto.RTItem{Scn: r, Class: fmt.Sprintf("wire/%s/%s", pr.p, name)})
+			// the same request in a process that logs at trace level (lazily built trace messages are evaluated)
+			r.TraceLog = true
+			items = append(items, proto.RTItem{Scn: r, Class: fmt.Sprintf("wire/%s/%s/trace-logging", pr.p, name)})
 		}
 	}
 	// the requested counts, including "none of this kind", through both entry points: exactly that many runs and samples
